@@ -1,4 +1,5 @@
 import LhasaV.Lemmas.HeaderRT
+import LhasaV.Lemmas.GenHeader
 /-!
 # C05 — every well-formed level 0–3 header is returned with exactly its encoded fields
 
@@ -74,5 +75,13 @@ theorem level1_compressed_size (mk : Nat → Nat) (f : Fields) : (typed mk f).co
       · rfl
       · rw [splitFilename_clen]
   · rw [foldl_applyExt_clen]
+
+/-- **Translator tie**: `os9_to_unix_permissions` of lib/lha_file_header.c is evaluated for all 65 536 OS-9 permission words of the
+working tree on every run (`Gen/Header.lean`: the table over the low byte, and that the high byte is ignored); for EVERY header the
+Unix permission word the model derives is the table's entry. -/
+theorem os9_permissions_match_source (h : Header.Hdr) :
+    (Header.os9ToUnix h).unixPerms = Gen.os9ToUnixTable.getD (h.os9Perms % 256) 0 ∧ Gen.os9HighByteIgnored = 1
+    ∧ Gen.os9SetsUnixPermsFlagOnly = 1 :=
+  GenHeader.os9_matches_source h
 
 end LhasaV.Props.C05
